@@ -29,6 +29,11 @@ class Series:
     def tolist(self):
         return list(self.vals)
 
+    def item(self):
+        if len(self.vals) != 1:
+            raise ValueError("can only convert an array of size 1 to a Python scalar")
+        return self.vals[0]
+
     def __len__(self):
         return len(self.vals)
 
